@@ -33,7 +33,7 @@ COMPONENTS = {
              "numpy.random.* and random_choice (tape / scripted policies)"],
 }
 ASSUMPTIONS = [
-    "thresholds <= 0.5 are excluded (two alleles could both qualify; 'the correct allele' is then undefined by the statement)",
+    "thresholds <= 0.5: a site is fixed when any homozygote reaches the threshold; when two do, which allele is re-inserted is undefined by the statement and only constancy of the column is required",
     "comparisons within 1e-9 of the threshold are skipped and counted",
     "numba compiles compound_step / random_breaks faithfully (observed interpreted); the compiled int dtype behaviour of the sweep table is identical to NumPy's",
 ]
@@ -81,7 +81,7 @@ def gen_config(rng, tier, index=0):
         "n_alleles": [rng.choice([2, 2, 2, 3, 4]) for _ in range(n_pos)],
         "hom_cols": [rng.random() < 0.5 for _ in range(n_pos)],
         "depth": rng.choice([0, 1, 3, 6, 12, 25, 60, 120]),
-        "fix_homozygous": rng.choice([0.51, 0.6, 0.9, 0.99, 0.999, 0.999, 0.999999, 1.0, 1.0, 1.1]),
+        "fix_homozygous": rng.choice([0.51, 0.6, 0.9, 0.99, 0.999, 0.999, 0.999999, 1.0, 1.0, 1.1, 0.3, 0.45]),
         "inbreeding": rng.choice([0.0, 0.0, 0.1, 0.5]),
         "counts": rng.choice(["none", "ints"]),
         "data_seed": rng.randrange(2 ** 31),
@@ -284,7 +284,8 @@ def run_fix(ctx):
             if abs(p - thr) < 1e-9:
                 near = True
             if p >= thr:
-                fixed_allele[j] = a
+                # thresholds below 0.5: two homozygotes can both reach it; the site is fixed, which allele is undefined (None)
+                fixed_allele[j] = a if j not in fixed_allele else None
     if near:
         ctx.counters.inc("threshold_near_skip")
         return
@@ -342,6 +343,11 @@ def run_fix(ctx):
                                 step=0, detail={"threshold": thr, "expected_variable": het, "handed_shape": list(c["reads"].shape)})
     # 2. fixed columns hold the arg-max allele at every step; other columns equal the inner event log
     for j, a in fixed_allele.items():
+        if a is None:
+            if len(set(int(v) for v in G[:, :, :, j].ravel())) != 1:
+                raise Violation("fixed_sites", "fixed site %d is not constant in the returned trace" % j, step=0, detail={"site": j, "threshold": thr})
+            ctx.counters.inc("fixed_allele_ambiguous_below_half")
+            continue
         if not np.all(G[:, :, :, j] == a):
             raise Violation("fixed_sites", "fixed site %d does not hold allele %d at every step of the returned trace" % (j, a), step=0,
                             detail={"site": j, "allele": a, "threshold": thr})
@@ -355,7 +361,7 @@ def run_fix(ctx):
                     raise Violation("fixed_sites", "variable columns of the returned trace differ from the states the inner sampler held (chain %d, step %d)" % (ci, i),
                                     step=i, detail={"expected": cold, "got": G[ci, i][:, het]})
                 # row association: each full row restricted to het cols appears in cold state (multiset), fixed cols constant -> checked above
-    ctx.key("fix", pl, tuple(n_alleles), round(thr, 3), tuple(sorted(fixed_allele.items())), hash(G.tobytes()) & 0xFFFFFFFF)
+    ctx.key("fix", pl, tuple(n_alleles), round(thr, 3), tuple(sorted((j, -1 if a is None else a) for j, a in fixed_allele.items())), hash(G.tobytes()) & 0xFFFFFFFF)
 
 
 def run_cli(ctx):
@@ -392,7 +398,7 @@ def run_cli(ctx):
                     ctx.counters.inc("threshold_near_skip")
                     return
                 if p >= thr:
-                    fixed_allele[j] = a
+                    fixed_allele[j] = a if j not in fixed_allele else None
         het = [j for j in range(n_pos) if j not in fixed_allele]
         where = "locus %s, sample %s, --mcmc-fix-homozygous %r, ploidy %d, inbreeding %r" % (rec["locus"], rec["sample"], cfg["fix_homozygous"], pl, F)
         G = rec["trace"]
@@ -411,11 +417,15 @@ def run_cli(ctx):
                                     "(expected variable sites %r of %d; %s)" % (het, n_pos, where), step=0,
                                     detail={"threshold": thr, "expected_variable": het, "handed_shape": list(c["reads"].shape)})
         for j, a in fixed_allele.items():
+            if a is None:
+                if len(set(int(v) for v in G[:, :, :, j].ravel())) != 1:
+                    raise Violation("fixed_sites", "fixed site %d is not constant in the trace (%s)" % (j, where), step=0)
+                continue
             if not np.all(G[:, :, :, j] == a):
                 raise Violation("fixed_sites", "fixed site %d does not hold allele %d at every step of the trace (%s)" % (j, a, where), step=0)
         ctx.counters.inc("cli_fixing_checked")
         ctx.counters.inc("cli_all_fixed" if not het else ("cli_some_fixed" if fixed_allele else "cli_none_fixed"))
-        ctx.key("cli-fix", pl, tuple(n_alleles), round(thr, 4), tuple(sorted(fixed_allele.items())), round(F, 3))
+        ctx.key("cli-fix", pl, tuple(n_alleles), round(thr, 4), tuple(sorted((j, -1 if a is None else a) for j, a in fixed_allele.items())), round(F, 3))
 
     wl_cli.run_assemble_cli(ctx, on_fit)
 
